@@ -9,6 +9,7 @@ mod props;
 mod run;
 mod stamp;
 mod subj;
+mod tworld;
 mod threads;
 mod value;
 mod vtime;
